@@ -20,7 +20,7 @@ CFG = {
                   "element's box - is re-checked per case)",
     "technique": "Coq proof (induction over depth / tree / work list; slab-test monotonicity over Q) + vm_compute correspondence check",
     "design_ref": "DESIGN.md §4 C16, §5 entries 17, 28",
-    # after fixes/c16-tri-hit-max-offset is landed (or its key listed as known): "extra_args": ["-bvhmin"],
+    "extra_args": ["-bvhmin"],   # BVH rays with a non-zero lower bound (fix b2fa3f0 landed)
     "n_quick": 150, "n_thorough": 2000,
     "rule": "element sets of points / line strips / triangles (Mesh.OctTree, OctTreeDepth) and plain boxes (trees.NewOctree…) on "
             "the integer grid: layouts uniform-small, uniform-wide, clustered, coincident, lattice (elements on the cells' "
